@@ -64,7 +64,7 @@ Print Assumptions c03_trace.
    args are a float64 and an int64 tensor (dtype codes 1, 3) and reach the model as such *)
 Example c03_example :
   model (Call KTuple 2 (MS [false; true; true] true) 2 [[1];[2];[3];[4];[5]]
-              [[[10];[20];[30];[40];[50]]; [[7;7];[8;8];[9;9];[6;6];[5;5]]] [1%nat; 3%nat] 1 [4])
+              [[[10];[20];[30];[40];[50]]; [[7;7];[8;8];[9;9];[6;6];[5;5]]] [1%nat; 3%nat] 1 [[4]; [4]])
   = (Ok (YM [[[1;10;7;7];[2;20;8;8];[3;30;9;9];[4;40;6;6];[5;50;5;5]];
              [[2;20;14;14];[4;40;16;16];[6;60;18;18];[8;80;12;12];[10;100;10;10]]]),
      [CR [false; false; false] false [[1];[2]] [[[10];[20]]; [[7;7];[8;8]]] [1%nat; 3%nat];
